@@ -255,6 +255,48 @@ func genC16(c *Ctx) {
 		}
 		c.mark(fmt.Sprintf("sq%d", i))
 	}
+	// squares cut exactly at / one share before the end of a blob: the last blob (highest namespace) is share
+	// version 0 or 1 with a data length in the 20 bytes below a share boundary, where the signer decides the
+	// share count; every prefix of the square that ends inside or at the end of that blob
+	for i := 0; i < 24*c.scale; i++ {
+		nss := blobNamespaces(r, 2)
+		k := 1 + r.Intn(3)
+		dl := 478 + 482*(k-1) - r.Intn(21)
+		ver := uint8(i % 2)
+		last := genBlob{ns: nss[len(nss)-1], ver: ver, data: r.Bytes(dl)}
+		if ver == 1 {
+			last.signer = r.Bytes(20)
+		}
+		for j := range nss[:len(nss)-1] {
+			if bytes.Compare(nss[j], last.ns) > 0 {
+				last.ns = nss[j]
+			}
+		}
+		var l [][]byte
+		if r.Bool(50) {
+			l = append(l, r.Bytes(1+r.Intn(300)))
+		}
+		bl := []genBlob{last}
+		l = append(l, blobTxOf(r, bl))
+		sq, err := square.Construct(l, 8, 64)
+		if err != nil {
+			continue
+		}
+		raws := copyShares(sq)
+		// the blob is the last non-tail-padding content: find its end
+		end := len(raws)
+		for end > 0 && bytes.Equal(raws[end-1][:29], tailNs) {
+			end--
+		}
+		for cut := end; cut >= end-2 && cut >= 1; cut-- {
+			h := joinHexList(raws[:cut])
+			c.add("deconstruct", h)
+			c.add("parseshares", "0", h)
+			c.add("parseblobs", h)
+		}
+		c.count(fmt.Sprintf("cut_at_blob_end_v%d", ver))
+		c.mark(fmt.Sprintf("cut v%d len %d", ver, dl))
+	}
 	// single crafted shares with extreme sequence lengths
 	for i := 0; i < 60*c.scale; i++ {
 		ns := pick(r, [][]byte{txNs, pfbNs, blobNamespaces(r, 1)[0], tailNs, prpNs})
@@ -550,4 +592,6 @@ func genC19(c *Ctx) {
 		c.add("iwunmarshal", hx(b))
 		c.add("blobunmarshal", hx(b))
 	}
+	// the JSON text layer (Model/Json.v): same check, further requests
+	genC19J(c)
 }
